@@ -5368,7 +5368,11 @@ pub mod verif_hooks {
     }
 
     pub fn try_parse_decimal(source: &str, try_integer: bool, try_float: bool) -> Numeric {
-        conv(super::numeric::try_parse_decimal(source, try_integer, try_float))
+        conv(super::numeric::try_parse_decimal(
+            source,
+            try_integer,
+            try_float,
+        ))
     }
 
     pub fn try_parse_hex_integer(source: &str) -> Numeric {
